@@ -321,6 +321,7 @@ mut("neutral-context-via-contextvars", MM, """        class _Data(threading.loca
 
         data = _Data()
 """, ["C15", "C14", "C03"], kind="neutral")
+mut("c03-cached-method-cache-shared-between-methods", "json_to_models/utils.py", "        key = (func.__name__, *args)\n", "        key = args\n", ["C03"])
 
 
 def apply(m, root):
